@@ -225,6 +225,24 @@ macro_rules! ans_impl {
                         }, &m.t);
                         out.extend(res.iter().map(|&s| s as Int));
                     }
+                    23 => {
+                        // op 13 carried out on a Cursor-backed decoder which is then flipped twice
+                        // (into_reversed().into_reversed()) and turned back into the Vec-backed
+                        // coder: the words below the cursor position must survive all of that
+                        let m = &models[r.us()];
+                        let k = r.us();
+                        let c = core::mem::replace(&mut coder, AnsCoder::new());
+                        let mut dec = c.into_seekable_decoder();
+                        let res: Vec<i64> = with_p!($Pr, m.p, $plist, |tm| {
+                            dec.decode_iid_symbols(k, tm).map(|x| x.unwrap()).collect()
+                        }, &m.t);
+                        let dec = dec.into_reversed().into_reversed();
+                        let (cursor, state) = dec.into_raw_parts();
+                        let (mut buf, pos) = cursor.into_buf_and_pos();
+                        buf.truncate(pos);
+                        coder = AnsCoder::from_raw_parts(buf, state);
+                        out.extend(res.iter().map(|&s| s as Int));
+                    }
                     14 => {
                         // the coder is replaced by a copy of itself: alternately made with clone()
                         // and with clone_from() into a STALE scratch coder (the coder as it was at
